@@ -397,7 +397,9 @@ def _core_source():
 def program(call, extra_pools=None):
     inject = "".join(f"POOLS[{k!r}] = {v!r}\n" for k, v in (extra_pools or {}).items())
     return ("import os, sys\nsys.path.insert(0, os.environ.get('VERIF_REPO', '/repo'))\nimport fastparquet\n"
-            + _core_source() + "\n" + inject + f"WHAT = {call}\nprint(WHAT)\nVIOLATED = WHAT is not None\n")
+            + _core_source() + "\n" + inject + "try:\n" + f"    WHAT = {call}\n"
+            + "except Exception as e:      # an escaping exception is a failed contract\n"
+            + "    WHAT = f'{type(e).__name__}: {e}'\nprint(WHAT)\nVIOLATED = WHAT is not None\n")
 
 
 class snippet:
@@ -515,40 +517,65 @@ DRILL_MIXED = [["007", "abc"], ["1", "x1", "2.5"], ["True", "maybe", "False"], [
                ["q", "5", "w", "6"]]
 
 def _worker_main():
-    """child process: specs (JSON list) on stdin -> list of `what` (None = holds) on stdout.
-    Children are plain `python -m runtime.c08_partitions` processes with PYTHONHASHSEED=0, so results do not
-    depend on the parent's hash seed and no multiprocessing start method touches the parent's __main__."""
+    """child process (plain `python -m runtime.c08_partitions`, PYTHONHASHSEED=0): jobs (JSON list of [index, spec]) on
+    stdin; a line `B <i>` before and `E <i> <json what>` after every case, so that the parent can tell which case was
+    running if this process dies in native code."""
     import traceback
     fp = import_fastparquet()
-    out = []
-    for spec in json.load(sys.stdin):
+    out = sys.stdout
+    for i, spec in json.load(sys.stdin):
+        out.write(f"\nB {i}\n")
+        out.flush()
         try:
-            out.append(check_partitioned(fp, spec))
+            what = check_partitioned(fp, spec)
         except BaseException as e:      # noqa: any escape = failed contract (reported by the parent)
             tb = traceback.extract_tb(e.__traceback__)
             at = f"{os.path.basename(tb[-1].filename)}:{tb[-1].lineno} {tb[-1].name}" if tb else "?"
-            out.append(f"{type(e).__name__}: {str(e)[:200]} @ {at}")
-    sys.stdout.write("\nRESULTS " + json.dumps(out) + "\n")
+            what = f"{type(e).__name__}: {str(e)[:200]} @ {at}"
+        out.write(f"\nE {i} {json.dumps(what)}\n")
+        out.flush()
 
 
-def _run_chunk(chunk):
-    env = dict(os.environ, PYTHONHASHSEED="0")
-    r = subprocess.run([sys.executable, "-m", "runtime.c08_partitions"], input=json.dumps(chunk), capture_output=True,
-                       text=True, env=env, cwd=os.path.dirname(os.path.dirname(os.path.abspath(__file__))), timeout=900)
-    line = [l for l in r.stdout.splitlines() if l.startswith("RESULTS ")]
-    if r.returncode != 0 or not line:
-        raise RuntimeError(f"c08 worker failed rc={r.returncode}: {r.stderr[-500:]}")
-    return json.loads(line[-1][8:])
+NOT_EVALUATED = "\x00not-evaluated"
+
+
+def _run_chunk(indexed):
+    res, todo, deaths = {}, list(indexed), 0
+    while todo:
+        r = subprocess.run([sys.executable, "-m", "runtime.c08_partitions"], input=json.dumps(todo), capture_output=True,
+                           text=True, env=dict(os.environ, PYTHONHASHSEED="0"), timeout=1800,
+                           cwd=os.path.dirname(os.path.dirname(os.path.abspath(__file__))))
+        began = None
+        for line in r.stdout.splitlines():
+            if line.startswith("B "):
+                began = int(line[2:])
+            elif line.startswith("E "):
+                _, i, payload = line.split(" ", 2)
+                res[int(i)] = json.loads(payload)
+                began = None
+        if r.returncode == 0 and began is None and all(i in res for i, _ in todo):
+            break
+        if began is None:
+            raise RuntimeError(f"c08_partitions worker failed rc={r.returncode}: {r.stderr[-500:]}")
+        sig = f"signal {-r.returncode}" if r.returncode < 0 else f"exit code {r.returncode}"
+        res[began] = f"child process died ({sig}) while this case was running: {r.stderr.strip()[-160:]}"
+        deaths += 1
+        todo = [(i, j) for i, j in todo if i not in res]
+        if deaths >= 6:
+            for i, _ in todo:
+                res[i] = NOT_EVALUATED
+            break
+    return res
 
 
 def run_specs(specs, nproc):
-    chunks = [specs[i::nproc] for i in range(nproc)]
+    indexed = list(enumerate(specs))
     with concurrent.futures.ThreadPoolExecutor(max_workers=nproc) as tex:
-        parts = list(tex.map(_run_chunk, chunks))
-    out = [None] * len(specs)
-    for i, part in enumerate(parts):
-        out[i::nproc] = part
-    return out
+        parts = list(tex.map(_run_chunk, [indexed[i::nproc] for i in range(nproc)]))
+    merged = {}
+    for part in parts:
+        merged.update(part)
+    return [merged[i] for i in range(len(specs))]
 
 
 def run_mixed(job):
@@ -603,7 +630,7 @@ def run_bounded(ctx):
                       "row_group_offsets {None,int,list}; 2 keys: 10x10 kinds x {all combinations, diagonal only}; "
                       "3 keys: 20 triples x 3 patterns; rows 1..60, null keys, unused categories, 4 value-column bundles "
                       "(int, float+NaN, str+None, bool, datetime, categorical, Int64, uint8)")
-    ctx.bounded_group(GM, rule="drill levels mixing re-typable and plain text, 5 value sets x PYTHONHASHSEED 0..7 in child "
+    ctx.bounded_group(GM, rule="drill levels mixing re-typable and plain text, 5 value sets x PYTHONHASHSEED 0..3 (thorough 0..7) in child "
                       "processes; the case holds only if it holds under every hash seed")
 
     # ---- (a) value plumbing ---------------------------------------------------------------------
@@ -643,13 +670,19 @@ def run_bounded(ctx):
 
     # ---- (b) write / directory tree / read ------------------------------------------------------
     specs = list(enumerate_write_cases(ctx.tier))
-    mixed_jobs = [(vals, seed) for vals in DRILL_MIXED for seed in range(8)]
+    hash_seeds = range(4) if ctx.tier == "quick" else range(8)
+    mixed_jobs = [(vals, seed) for vals in DRILL_MIXED for seed in hash_seeds]
     ncpu = os.cpu_count() or 2
     with concurrent.futures.ThreadPoolExecutor(max_workers=4) as tex:
         futs = [tex.submit(run_mixed, j) for j in mixed_jobs]
         results = run_specs(specs, max(2, min(12, ncpu - 4)))
         mixed_results = [f.result() for f in futs]
+    skipped = sum(1 for w in results if w == NOT_EVALUATED)
+    if skipped:
+        ctx.note(f"c08: {skipped} cases not evaluated because worker processes kept dying (each death is a failed case)")
     for spec, what in zip(specs, results):
+        if what == NOT_EVALUATED:
+            continue
         clean = {k: v for k, v in spec.items() if k != "rgo_kind"}
         with Case(ctx, GW, features_of(spec), snippet=snippet(f"check_partitioned(fastparquet, {clean!r})"),
                   nontrivial=spec["rows"] > 0,
@@ -662,8 +695,8 @@ def run_bounded(ctx):
         per_seed = {seed: what for v, seed, what in mixed_results if v == vals}
         bad = {s: w for s, w in per_seed.items() if w}
         F = {"scheme": "drill", "level_values": "|".join(vals), "mixes_retypable_and_plain_text": True}
-        with Case(ctx, GM, F, snippet=mixed_snippet(vals, range(8)),
-                  contract="same as c08.write_read, under every PYTHONHASHSEED in 0..7") as c:
+        with Case(ctx, GM, F, snippet=mixed_snippet(vals, hash_seeds),
+                  contract="same as c08.write_read, under every PYTHONHASHSEED in 0..3 (thorough: 0..7)") as c:
             if bad:
                 s0 = sorted(bad)[0]
                 c.fail(f"fails under PYTHONHASHSEED in {sorted(bad)}; seed {s0}: {bad[s0]}")
